@@ -30,8 +30,8 @@ RULE = ("case = (scenario, functional or history, representation, phase, crash-i
         "crash was reached (Boom observed) and the object snapshot contained at least one tensor, or (history scenarios) the history "
         "performed at least one substitution / flag change")
 MIN_NONTRIVIAL = {"quick": 300, "thorough": 1500}
-REQUIRED_COUNTERS = {"quick": {"crash_points_reached": 1500, "restore_events": 3000, "snapshots_compared": 2000},
-                     "thorough": {"crash_points_reached": 15000, "restore_events": 30000, "snapshots_compared": 20000}}
+REQUIRED_COUNTERS = {"quick": {"linop_composed_cases": 8, "crash_points_reached": 1500, "restore_events": 3000, "snapshots_compared": 2000},
+                     "thorough": {"linop_composed_cases": 40, "crash_points_reached": 15000, "restore_events": 30000, "snapshots_compared": 20000}}
 ASSUMPTIONS = ["single-threaded, seeded: the clean run and each injected run build identical objects from the same seed",
                "the snapshot ignores xitorch's own non-tensor caches on the object (_paramnames_, _unique_params_*, _number_of_params)",
                "attribute order in a plain object's __dict__ is not compared; nn.Module._parameters order is"]
@@ -87,6 +87,11 @@ def cases(seed, tier):
                         # debug mode on: the operators are checked (products evaluated) before the solver starts
                         out.append({"group": "linop", "functional": fn, "method": method, "phase": ph, "withM": withM, "debug": True,
                                     "maxpts": 10 if quick else 40, "n": rng.choice([4, 6]), "seed": sub_seed(seed, "c10s", k)})
+                        k += 1
+                    if method != "exacteig" and (not quick or rng.random() < 0.6):
+                        # A composed of building blocks that occur several times: parameter list (a, a, b, c, b) (with each block's extra tensor)
+                        out.append({"group": "linop", "functional": fn, "method": method, "phase": ph, "withM": withM, "debug": False, "compose": "blocks",
+                                    "maxpts": 4 if quick else 20, "n": rng.choice([6, 7]), "seed": sub_seed(seed, "c10s", k)})
                         k += 1
     # exhaustive small histories of nested substitutions: per level {same, diff, alias}, exception raised at the innermost level or not
     for rep in ("em_flat", "em_alias", "em_container", "nn_flat", "nn_tied", "em_nn_reordered", "sib_multi_shared", "sib_single"):
@@ -525,9 +530,19 @@ def _linop_run(desc, fail, obs, mech, clean):
         return op
     symA = 0.5 * (leafA + leafA.transpose(-2, -1))
     symM = 0.5 * (leafM + leafM.transpose(-2, -1))
-    A = mk(symA, True)
+    blocks = []
+    if desc.get("compose") == "blocks":
+        eye = torch.eye(n, dtype=dtype)
+        Da, Db, Dc = mk(symA, True), mk(0.3 * symA + eye, True), mk(0.05 * torch.matmul(symA, symA) + eye, True)
+        blocks = [("Da", Da), ("Db", Db), ("Dc", Dc)]
+        if desc["functional"] == "solve":
+            A = Da.matmul(Da) + Db.matmul(Dc).matmul(Db)
+        else:
+            A = (Da + Da) + (Db + (Dc + Db))
+    else:
+        A = mk(symA, True)
     M = mk(symM, True) if desc["withM"] else None
-    objs = [("A", A)] + ([("M", M)] if M is not None else [])
+    objs = [("A", A)] + blocks + ([("M", M)] if M is not None else [])
     snap0 = snapshot(objs)
     dbg_prev = xitorch.is_debug_enabled()
     dbg0 = bool(desc.get("debug"))
@@ -581,8 +596,11 @@ def _linop_run(desc, fail, obs, mech, clean):
 
 
 def run_linop(desc, obs):
-    mech = "%s:%s:%s:%s%s" % (desc["functional"], desc["method"], "M" if desc["withM"] else "noM", desc["phase"], ":debug" if desc.get("debug") else "")
+    mech = "%s:%s:%s:%s%s%s" % (desc["functional"], desc["method"], "M" if desc["withM"] else "noM", desc["phase"], ":debug" if desc.get("debug") else "",
+                                ":blocks" if desc.get("compose") else "")
     st, err = _linop_run(desc, None, obs, mech, True)
+    if desc.get("compose"):
+        obs.count("linop_composed_cases")
     if st is None:
         obs.skip("clean run does not complete (%s)" % err[:60])
         return
